@@ -35,6 +35,10 @@ type engine struct{}
 // failures remain.
 var forceCanonical = os.Getenv("VERIF_OSM_CANONICAL") != ""
 
+// forceStrategy (env VERIF_OSM_STRATEGY, sensitivity experiments only) pins the
+// scheduling strategy.
+var forceStrategy = os.Getenv("VERIF_OSM_STRATEGY")
+
 func (e *engine) Info() core.Info {
 	return core.Info{
 		Prop:  "C18",
@@ -45,7 +49,7 @@ func (e *engine) Info() core.Info {
 		FaultKinds: []string{
 			"reader-short-reads (legal)", "reader-zero-read (legal (0,nil), injected singly)", "reader-io-error at byte k of pass p", "seek-failure at pass p", "cancellation at scheduler step k", "worker-stall (a ready worker frozen for tens to thousands of steps)", "worker-starved",
 		},
-		StateMeasure:  "distinct (document, keep function, set of stored ids at each pass boundary) signatures",
+		StateMeasure:  "distinct (document, keep function) pairs among successful runs (each has one model result)",
 		SchedMeasure:  "distinct interleavings = distinct hashes of the sequence of tasks chosen at every scheduling decision",
 		TimeStatement: "no clock or timer exists in extract; simulated time = scheduler steps (one per intercepted lock acquisition, channel operation, spawn, join)",
 		Assumptions: []string{
@@ -408,6 +412,9 @@ func (r *run) exec() {
 	r.keepTags = t.Bool("keep-tags")
 	r.nprocs = 1 + t.Choose(8, "nprocs")
 	r.strategy = sched.Strategies[t.Choose(len(sched.Strategies), "strategy")]
+	if forceStrategy != "" {
+		r.strategy = forceStrategy // sensitivity experiments only
+	}
 	r.class = t.Choose(8, "fault-class") // 0-2 none, 3 legal reader variations, 4 zero read, 5 eio, 6 seek, 7 cancel
 	withBounds := t.Bool("bounds-elem")
 	xmlDoc := r.d.xml(withBounds)
